@@ -367,9 +367,12 @@ class Parallel:
                 worker_name = None
                 in_thread_results = None
 
+                # Once every worker has exited, all their results are already in the queue:
+                # drain it without waiting and leave the loop only when it is found empty.
+                pool_is_empty = not pool
                 queue_empty = False
                 try:
-                    worker_name, _, in_thread_results, exc = done_queue.get(True, 1)
+                    worker_name, _, in_thread_results, exc = done_queue.get(not pool_is_empty, 1)
                     last_task_ts = time.monotonic()
                 except queue.Empty:
                     queue_empty = True
@@ -419,7 +422,7 @@ class Parallel:
                         for result in self._run_callbacks(in_thread_result)
                     ]
 
-                if not pool:
+                if pool_is_empty and queue_empty:
                     break
 
                 for name in retired_workers:
